@@ -167,6 +167,12 @@ func c08(args []string) error {
 			syncInfoRejected = false
 			_ = cnt
 			fmt.Fprintf(os.Stderr, "[postmortem] quorum for view %d consumed without leaving the view (scheme %s, n=%d, R=%d)\n", view, scheme, n, R)
+			for _, x := range nodes {
+				if pk, ok := x.Key.Public().(interface{ ToBytes() []byte }); ok {
+					fmt.Fprintf(os.Stderr, "[postmortem]   pubkey %d = %x\n", x.ID, pk.ToBytes())
+				}
+			}
+			fmt.Fprintf(os.Stderr, "[postmortem]   R's collector now: %v; R view %d\n", bagOf(r), r.VS.View())
 			var sigs []hotstuff.QuorumSignature
 			for k, tm := range seen {
 				if k[1] != view {
